@@ -247,6 +247,14 @@ func checkC04(c *Ctx) {
 			pinned = append(pinned, append(append([]string{}, memoPrelude...), call, change, call, call))
 		}
 	}
+	// 4c. a printing callee reached from every syntactic position of a memoized caller: the replayed output of a hit must be
+	//     the output of the first run, whatever construct the inner call sits in
+	for _, pos := range []string{`{"n": x, "sq": P}`, `{P: 1}`, `[x, P]`, `[1, 2, 3][P % 3]`, `fadd2(x, P)`, `x + P`, `-P`, `if P > 0 {1} else {2}`, `if x > 0 {P} else {0}`, `for P {1}`,
+		`for i = 2 {P}`, `(1:9)[P:]`, `(1:9)[0:P]`, `y = P; y`, `return P`, `(() => P)()`, `[P, P]`, `{"a": {"b": [P]}}`, `catch(P).value`, `len([P])`, `first([P])`, `P == P`, `x > 0 && P > 0`,
+		`str(P)`, `min(x, P)`, `(n => n + 1)(P)`, `m = {}; m[P] = 1; len(m)`, `a = [0, 0]; a[P % 2] = 5; a`} {
+		body := strings.ReplaceAll(pos, "P", "fprint(x)")
+		pinned = append(pinned, append(append([]string{}, memoPrelude...), "fadd2 = func(a, b) {a + b}", "fw = func(x) {"+body+"}", "println(catch(fw(1)))", "println(catch(fw(1)))", "println(catch(fw(2)), catch(fw(1)))"))
+	}
 	// 5. key confusion matrix: every function shape called with every ordered pair of argument lists that a sloppy cache key
 	//    could identify (int / float / string of the same digits, 0.0 / -0.0 / 0, an array / its spread / its nesting,
 	//    small / large containers, prefix-equal lists): the second and third call must not replay the first one's output
